@@ -273,13 +273,29 @@ func c13Func(p *an.Prog, r *an.Report, short string, fn *ssa.Function, dir strin
 	// guard region on len(param)
 	prm := fn.Params[0]
 	dom := an.IvRange(0, an.PosInf)
+	// the parameter handed unchanged to a guard helper is the same value inside the helper
+	same := map[ssa.Value]bool{prm: true}
+	for _, b := range fn.Blocks {
+		for _, in := range b.Instrs {
+			c, ok := in.(*ssa.Call)
+			if !ok || !isGuardHelper(fn, c) {
+				continue
+			}
+			callee := c.Call.StaticCallee()
+			for ai, a := range c.Call.Args {
+				if a == ssa.Value(prm) && ai < len(callee.Params) {
+					same[callee.Params[ai]] = true
+				}
+			}
+		}
+	}
 	ev := &an.PEval{P: p, Domain: dom, Select: func(ev *an.PEval, v ssa.Value, args []an.AV) bool {
 		c, ok := v.(*ssa.Call)
 		if !ok {
 			return false
 		}
 		bi, ok := c.Call.Value.(*ssa.Builtin)
-		return ok && bi.Name() == "len" && c.Call.Args[0] == ssa.Value(prm)
+		return ok && bi.Name() == "len" && same[c.Call.Args[0]]
 	}, Inline: func(f *ssa.Function) bool { return an.InLib(f) && an.FnPkgPath(f) == an.FnPkgPath(fn) && len(f.Blocks) > 0 },
 		OnCall: func(ev *an.PEval, call *ssa.Call, callee *ssa.Function, args []an.AV) (an.AV, bool) {
 			return an.AV{}, false
@@ -321,12 +337,43 @@ func isGuardHelper(fn *ssa.Function, c *ssa.Call) bool {
 	return guardHelperFn(fn, c.Call.StaticCallee(), 0)
 }
 
+// lenOnlyParam: a []byte/string parameter whose only use is as the operand of len().
+func lenOnlyParam(prm *ssa.Parameter) bool {
+	switch t := prm.Type().Underlying().(type) {
+	case *types.Basic:
+		if t.Info()&types.IsString == 0 {
+			return false
+		}
+	case *types.Slice:
+		if b, ok := t.Elem().Underlying().(*types.Basic); !ok || b.Kind() != types.Uint8 {
+			return false
+		}
+	default:
+		return false
+	}
+	if prm.Referrers() == nil {
+		return true
+	}
+	for _, ref := range *prm.Referrers() {
+		switch x := ref.(type) {
+		case *ssa.DebugRef:
+		case *ssa.Call:
+			if bi, ok := x.Call.Value.(*ssa.Builtin); !ok || bi.Name() != "len" {
+				return false
+			}
+		default:
+			return false
+		}
+	}
+	return true
+}
+
 func guardHelperFn(root, g *ssa.Function, depth int) bool {
 	if g == nil || depth > 2 || !an.InLib(g) || an.FnPkgPath(g) != an.FnPkgPath(root) || len(g.Blocks) == 0 || g.Signature.Recv() != nil {
 		return false
 	}
 	for _, prm := range g.Params {
-		if !isIntegerType(prm.Type()) && !isErrorType(prm.Type()) {
+		if !isIntegerType(prm.Type()) && !isErrorType(prm.Type()) && !lenOnlyParam(prm) {
 			return false
 		}
 	}
